@@ -91,7 +91,7 @@ def opT2T : R (List String) := do
   | .outOfFuel => pure ["fuel"]
   | .ok r =>
     pure (["ok"] ++ encToks r.toks ++ encTxtPos (r.txt, r.pos) ++ encParts r.parts
-          ++ (toString r.unknowns.length :: r.unknowns.map encStr) ++ encDiags r.diags)
+          ++ (toString r.unknowns.length :: r.unknowns.map encStr) ++ encDiags r.diags ++ [encBool r.foreign])
 
 def dispatch (op : String) : R (List String) :=
   match op with
